@@ -678,7 +678,13 @@ def run_C10(R):
                             dict(concepts=(None, 'b', 'a'), roles=(':R', ':R-of'),
                                  atoms=('k', '"b"', 'b~e.1', 'a2', None)), thorough_extra=False):
         R.check('C10.reset', {'node': node, 'fmt': R.rnd.choice(fmts)})
-    for s in ['(v1 / i :ARG0 v1~e.5)', '(a / b :R (b / a :S a~1 :T "a"))', '(x :R (y :S x))']:
+    # variables that also occur inside alignment markers / other atoms
+    for it in range(300 if R.quick else 5000):
+        node = gens.random_tree(R.rnd, maxn=4, maxd=2, prefix=R.rnd.choice(['e', 'e.', 'x', '1']),
+                                roles=[':R', ':S-of'], concepts=('e', 'x', 'e0'), consts=('e', 'e.1', 'k'))
+        R.check('C10.reset', {'node': node, 'fmt': R.rnd.choice(fmts)})
+    for s in ['(v1 / i :ARG0 v1~e.5)', '(a / b :R (b / a :S a~1 :T "a"))', '(x :R (y :S x))',
+              '(s / see-01 :ARG0 (e / i~e.0) :ARG1 e~e.0)', '(e :R (e2 :S e~e.1,2 :T e2~e.3))']:
         for f in fmts:
             R.check('C10.reset', {'node': penman.parse(s).node, 'fmt': f})
     R.check('C10.reset', {'node': penman.parse('(a / x :R (b / x))').node, 'fmt': 'x'})
@@ -1029,6 +1035,14 @@ def run_C11(R):
             R.check('C11.inverse', {'triples': ts, 'top': top, 'kind': kind, 'model': m,
                                     'edit': R.rnd.randrange(4)})
         R.check('C11.nocollapse', {'triples': ts, 'top': top, 'model': m})
+    # re-entrancies written before the definition of a reified node (forward references)
+    for src in ['(a / alpha :ARG0 _ :ARG1-of (_ / have-mod-91 :ARG2 (b / beta :polarity -)))',
+                '(a / alpha :ARG0 m :ARG1-of (m / have-mod-91~2 :ARG2 (b / beta)))',
+                '(a / alpha :ARG1-of (m / have-mod-91 :ARG2 (b / beta)) :ARG0 m)',
+                '(a / x :ARG0 l :ARG1-of (l / be-located-at-91 :ARG2 (p / park)))']:
+        g = penman.decode(src, model=get_model('amr'))
+        R.check('C11.nocollapse', {'triples': g.triples, 'top': g.top, 'model': 'amr'})
+        R.check('C11.inverse', {'triples': g.triples, 'top': g.top, 'kind': 'decoded', 'model': 'amr'})
     for src in ['(a / x :mod~1 (b / y~2) :location-of~3 (c / z) :quant 1~4)',
                 '(a / x :mod (_ / y :mod (_2 / z)))', '(a / x :mod b~e.1 :R (b / y))',
                 '(a / x :loc-of (b / y))']:
